@@ -1141,7 +1141,7 @@ func genTPuts(g *h.Gen) {
 	// histories: arbitrary TParm calls precede the TPuts call in the same process
 	hdbs := tpDBStrings()
 	hs := h.SortedKeys(dbs)
-	for i := g.N(300, 5000); i > 0 && len(hs) > 0; i-- {
+	for i := g.N(150, 5000); i > 0 && len(hs) > 0; i-- {
 		emit("-", h.Pick(r, hs), tiHistorySuffix(tiHistoryCalls(r, hdbs)))
 	}
 	if g.Thorough() { // the Go-side timing oracle: PadChar set => the delay is honoured; PadChar empty => no sleep
@@ -1210,7 +1210,7 @@ func genTGoto(g *h.Gen) {
 	// histories: arbitrary TParm calls precede the TGoto calls in the same process (emitted last: what a history leaves
 	// behind in a defective tree must not reach the plain lines above)
 	dbs := tpDBStrings()
-	for i := g.N(400, 8000); i > 0; i-- {
+	for i := g.N(300, 8000); i > 0; i-- {
 		var cs []int
 		for k := g.R.Range(1, 5); k > 0; k-- {
 			cs = append(cs, h.Pick(g.R, S))
@@ -1261,7 +1261,7 @@ func genTColor(g *h.Gen) {
 	}
 	// histories: arbitrary TParm calls precede the TColor calls in the same process (emitted last, see genTGoto)
 	dbs := tpDBStrings()
-	for i := g.N(400, 8000); i > 0; i-- {
+	for i := g.N(300, 8000); i > 0; i-- {
 		var bs []int
 		for k := g.R.Range(1, 4); k > 0; k-- {
 			bs = append(bs, h.Pick(g.R, C))
